@@ -107,10 +107,11 @@ func (k Keeper) onWeightChanged(ctx context.Context, token string, previous, cur
 
 		if isUp {
 			diff := math.NewIntFromUint64(current - previous).Mul(amount).Quo(types.PowerReduction)
-			if !diff.IsUint64() {
+			newPower, ok := types.AddPower(validator.Power, diff)
+			if !ok {
 				return fmt.Errorf("power too large: %s", diff)
 			}
-			validator.Power += diff.Uint64()
+			validator.Power = newPower
 		} else {
 			diff := math.NewIntFromUint64(previous - current).Mul(amount).Quo(types.PowerReduction)
 			if df := diff.Uint64(); validator.Power > df {
